@@ -115,8 +115,11 @@ def run(gen, seed, n_ops=60):
                 return False
             return True
 
+        life = {"t0": 0.0}
+
         async def start_life(first):
             ok = await w.init_and_sync()
+            life["t0"] = loop.time()   # heartbeats of this life: t0 + 300 k
             await settle()
             if ok is not True:
                 v("C09" if first else "C15", "init-fails-against-answering-console", ret=ok)
@@ -300,7 +303,11 @@ def run(gen, seed, n_ops=60):
                         a["status"] = c10.rand_ac(gen, rnd, a["status"]["ac"])
                         a["status"]["error"] = 0
                 tr = c.transport
-                if slow and rnd.random() < 0.6:
+                # (not when a heartbeat is due within the next seconds: its answer would queue
+                # up behind the fault in a stream nobody reads any more, and the version it
+                # carries would legitimately never be seen)
+                phase = (loop.time() - life["t0"]) % 300.0
+                if slow and rnd.random() < 0.6 and 0.01 < phase < 295.0:
                     # the fault finds the receive loop busy in a subscriber (with a frame that
                     # makes the client ask nothing: an answer that arrives while the loop is
                     # busy is lost with the connection, which no property forbids)
